@@ -303,6 +303,10 @@ func genStr(r *hx.Rng) []byte {
 	case 0:
 		return nil
 	case 1:
+		// one byte, any value: one-character strings are what signatures mostly are
+		if r.Bool() {
+			return []byte{byte(r.Intn(256))}
+		}
 		return []byte{byte('a' + r.Intn(26))}
 	case 2:
 		return r.Bytes(r.Intn(300))
@@ -313,6 +317,80 @@ func genStr(r *hx.Rng) []byte {
 			b[i] = byte(' ' + r.Intn(95))
 		}
 		return b
+	}
+}
+
+// DirectedTys lists, for every scalar letter of the alphabet given, the small types in which that
+// scalar is the element of a list, of a nested list, a map value, a map key (when it can be one),
+// a tuple and a struct member next to a container: a special case for one element kind in one
+// position (a "fast path") is exercised whatever the random draw does.  With zeroWidth, the
+// containers whose elements occupy no byte (void, the empty tuple, the empty struct) follow,
+// alone, nested in each other and next to sized members.
+func DirectedTys(scalars, keyScalars string, zeroWidth bool) []*Ty {
+	var out []*Ty
+	for _, c := range scalars {
+		x := func() *Ty { return Scalar(string(c)) }
+		out = append(out,
+			List(x()),
+			List(List(x())),
+			Map(Scalar("s"), x()),
+			Map(Scalar("I"), List(x())),
+			Tuple(x()),
+			Tuple(Scalar("i"), List(x())),
+			Tuple(List(x()), Scalar("s")),
+			Struct("P", []string{"a", "b"}, x(), List(x())),
+			List(Tuple(x(), x())),
+		)
+		if strings.ContainsRune(keyScalars, c) {
+			out = append(out, Map(x(), Scalar("i")), Map(x(), x()))
+		}
+	}
+	if zeroWidth {
+		v, e := func() *Ty { return Scalar("v") }, func() *Ty { return Tuple() }
+		out = append(out,
+			List(v()), List(e()), List(Struct("E", nil)),
+			List(List(v())), List(List(e())), List(List(List(v()))),
+			List(Tuple(List(e()))), List(Tuple(v(), e())),
+			Map(Scalar("i"), List(v())), Map(Scalar("s"), List(e())), Map(Scalar("I"), e()),
+			Tuple(List(v()), Scalar("i")), Tuple(Scalar("i"), List(v()), Scalar("s")), Tuple(List(e()), List(v())),
+			Struct("Z", []string{"a", "b"}, List(List(v())), Scalar("s")),
+			List(Map(Scalar("i"), v())),
+		)
+	}
+	return out
+}
+
+// GenValFull is GenVal with every list and map holding exactly n elements (fewer map entries
+// when the key type has fewer values).
+func GenValFull(r *hx.Rng, t *Ty, n int) *Val {
+	switch t.K {
+	case KList:
+		v := &Val{K: VList}
+		for i := 0; i < n; i++ {
+			v.L = append(v.L, GenValFull(r, t.Elem, n))
+		}
+		return v
+	case KMap:
+		v := &Val{K: VMap}
+		seen := map[string]bool{}
+		for try := 0; try < 8*n && len(v.KV) < n; try++ {
+			k := GenValFull(r, t.Key, n)
+			ks := string(k.Enc())
+			if seen[ks] {
+				continue
+			}
+			seen[ks] = true
+			v.KV = append(v.KV, [2]*Val{k, GenValFull(r, t.Val, n)})
+		}
+		return v
+	case KScalar:
+		return GenVal(r, t, n)
+	default:
+		v := &Val{K: VTup}
+		for _, m := range t.Mem {
+			v.L = append(v.L, GenValFull(r, m, n))
+		}
+		return v
 	}
 }
 
